@@ -25,6 +25,8 @@ def main():
         open(p, 'w').write(s)
         env = dict(os.environ, PY4HW_SRC=d)
         here = os.path.dirname(os.path.dirname(os.path.abspath(__file__)))
+        ev = os.path.join(here, 'evidence', prop + '.json')
+        saved = open(ev).read() if os.path.exists(ev) else None
         r = subprocess.run([os.path.join(here, 'check'), prop, '--tier', tier], env=env, capture_output=True, text=True, cwd=here)
         out = [l for l in r.stdout.splitlines() if 'conda' not in l]
         viol = [l for l in out if l.startswith('VIOLATION')]
@@ -32,6 +34,8 @@ def main():
         for l in out[-6:]:
             print('   ', l[:300])
         shutil.rmtree(os.path.join(here, 'replay', prop, '_found'), ignore_errors=True)
+        if saved is not None:
+            open(ev, 'w').write(saved)      # evidence must come from the unchanged tree
         return 0
     finally:
         shutil.rmtree(d, ignore_errors=True)
